@@ -268,6 +268,19 @@ func evalConf(cf *sdl.Conf, cfg map[string]string) confExpect {
 		x, _ := strconv.Atoi(a)
 		y, _ := strconv.Atoi(b)
 		val = strconv.Itoa(x + y)
+	case "sumDef2":
+		// each placeholder falls back to its OWN default, and only when its own key is absent
+		a, okA := cfg[cf.Keys[0]]
+		if !okA {
+			a = cf.Default
+		}
+		b, okB := cfg[cf.Keys[1]]
+		if !okB {
+			b = cf.Default2
+		}
+		x, _ := strconv.Atoi(a)
+		y, _ := strconv.Atoi(b)
+		val = strconv.Itoa(x + y)
 	case "nested":
 		sel, okS := cfg["other.sel"]
 		a, okA := cfg["sim."+sel]
@@ -483,7 +496,7 @@ func (w *World) CheckConfigStages(o *Obs) []Violation {
 			cfg2[p.PostSetKey] = strconv.Itoa(p.PostSetVal)
 		}
 		exprMenu := func(m string) bool {
-			return m == "sum" || m == "mul" || m == "nested" || m == "sumDef" || m == "indirect"
+			return m == "sum" || m == "mul" || m == "nested" || m == "sumDef" || m == "sumDef2" || m == "indirect"
 		}
 		judge := func(inst string, t *sdl.Type, round int, cfgR map[string]string, l LookupObs, got map[string]string) (created, judged bool) {
 			bad, why := false, ""
@@ -559,7 +572,7 @@ func (w *World) CheckConfigStages(o *Obs) []Violation {
 			}
 			if got != x.e.Value {
 				oracle := "bound-value-differs"
-				if x.cf.Menu == "sum" || x.cf.Menu == "mul" || x.cf.Menu == "nested" || x.cf.Menu == "sumDef" || x.cf.Menu == "indirect" {
+				if x.cf.Menu == "sum" || x.cf.Menu == "mul" || x.cf.Menu == "nested" || x.cf.Menu == "sumDef" || x.cf.Menu == "sumDef2" || x.cf.Menu == "indirect" {
 					oracle = "expression-result-differs"
 				}
 				vs = append(vs, v("C18", oracle, x.inst+"."+x.cf.Field, fmt.Sprintf("%s.%s (%s %v default=%q) holds %q, the menu evaluator gives %q over configuration %v", x.inst, x.cf.Field, x.cf.Menu, x.cf.Keys, x.cf.Default, got, x.e.Value, cfg)))
